@@ -1,19 +1,30 @@
 import MgpuModel.Util
+import MgpuModel.C14_Vmu
 /-!
 C02 (transaction path) — the vector memory unit of the timing compute unit between the coalescer and
 the `ToVectorMem` port (`amd/timing/cu/vectormemoryunit.go`), one tick = one `VectorMemoryUnit.Run`:
 
-  `sendRequest`            up to 16 items leave the post-pipeline buffer, as many as the port accepts
+  `sendRequest`            (repaired unit) the OLDEST transaction of `transactionsInOrder` goes to the
+                           port, a younger head of the post-pipeline buffer is popped and set aside;
+                           up to 16 rounds, as long as the port accepts
   `transactionPipeline.Tick`  Akita `pipelining` pipeline, `cyclePerStage = 1`: lane 0 first, every lane
                            from the last stage backwards; the last stage moves into the post-pipeline
                            buffer only when `CanPush`
-  `insertTransactionToPipeline`  waiting transactions enter the first lane whose first stage is free;
-                           a coalescing penalty stalls the insertion for some ticks
+  `insertTransactionToPipeline`  waiting transactions enter the first lane whose first stage is free
+                           (none while something is set aside: `canAcceptTransaction`); a coalescing
+                           penalty stalls the insertion for some ticks
   `execute`                the coalescer's transactions of a newly executed instruction join the
                            waiting list (they can enter the pipeline in the next tick at the earliest)
 
 The scenario gives, per tick, the number of free slots of the port's outgoing buffer and the
 transactions that arrive; the model answers the order in which the transactions leave the unit.
+
+The unit itself is NOT transcribed a second time: `tick` is built from the cycle function of the C14 model
+of the same unit (`C14.Vmu.cycle`, `issue`, `take`: `MgpuModel/C14_Vmu.lean`, proved a FIFO for every width
+in `Props/C14Vmu.lean`); this file only adds the scenario encoding of the C02 harness (free port slots per
+tick, arrivals with penalties). The unit BEFORE the repair (`sendRequest` took whatever stood at the head of
+the post-pipeline buffer: with more than one lane a full buffer let younger transactions overtake older
+ones) is kept as `C02.Txn.Old` — the refuted statements are about it.
 -/
 namespace C02.Txn
 open Util
@@ -28,6 +39,25 @@ deriving Repr, DecidableEq
 /-- one lane of the pipeline; head = LAST stage (next to the post-pipeline buffer), last element =
     stage 0 (entry) -/
 abbrev Lane := List (Option Item)
+
+structure Cfg where
+  w : Nat
+  s : Nat
+  b : Nat
+deriving Repr, DecidableEq
+
+/-- `equipVectorMemoryUnit`: width < 1 becomes 1, buffer size < 8 becomes 8 -/
+def mkCfg (w s b : Nat) : Cfg := ⟨max w 1, s, max b 8⟩
+
+/-- input of one tick: free slots of the port's outgoing buffer when the tick starts, and the coalescing
+    penalties of the transactions the coalescer appends in this tick -/
+structure Tk where
+  p : Nat
+  arr : List Nat
+deriving Repr, DecidableEq
+
+/-! ## the unit before the repair -/
+namespace Old
 
 /-- `pipelineImpl.Tick` below an already processed stage `a`: the stages of `rest` are visited from the
     exit side; an item moves forward when the stage in front of it is (now) empty. Returns the lane
@@ -78,15 +108,6 @@ def insertGo : List Item → List Lane → List Item × List Lane × Nat
     | none => (x :: rest, lanes, 0)
     | some lanes' => if x.pen > 0 then (rest, lanes', x.pen) else insertGo rest lanes'
 
-structure Cfg where
-  w : Nat
-  s : Nat
-  b : Nat
-deriving Repr, DecidableEq
-
-/-- `equipVectorMemoryUnit`: width < 1 becomes 1, buffer size < 8 becomes 8 -/
-def mkCfg (w s b : Nat) : Cfg := ⟨max w 1, s, max b 8⟩
-
 structure St where
   lanes : List Lane
   post : List Item := []
@@ -95,13 +116,6 @@ structure St where
   out : List Item := []
   next : Nat := 0
 deriving Repr
-
-/-- input of one tick: free slots of the port's outgoing buffer when the tick starts, and the coalescing
-    penalties of the transactions the coalescer appends in this tick -/
-structure Tk where
-  p : Nat
-  arr : List Nat
-deriving Repr, DecidableEq
 
 def init (c : Cfg) : St := { lanes := List.replicate c.w (List.replicate c.s none) }
 
@@ -134,6 +148,40 @@ def run (c : Cfg) (ts : List Tk) : St := ts.foldl (tick c) (init c)
 
 /-- the departure order, as issue indices -/
 def departed (c : Cfg) (ts : List Tk) : List Nat := (run c ts).out.map (·.idx)
+
+/-- per tick: post-buffer fill / waiting transactions after the tick -/
+def traceOf (c : Cfg) (ts : List Tk) : List String :=
+  (ts.foldl (fun (acc : St × List String) t =>
+    let s := tick c acc.1 t
+    (s, s!"{s.post.length}/{s.waiting.length}" :: acc.2)) (init c, [])).2.reverse
+
+end Old
+
+/-! ## the repaired unit: the C14 model of `VectorMemoryUnit.Run` under the C02 scenario encoding -/
+
+/-- capacity of the outgoing buffer of `ToVectorMem` (`NewComputeUnit`) -/
+def portCap : Nat := 64
+
+/-- the configuration of the C14 model: lanes, stages, post-pipeline buffer, port, burst of `sendRequest` -/
+def vcfg (c : Cfg) : C14.Vmu.Cfg := ⟨c.w, c.s, c.b, portCap, 16⟩
+
+abbrev St := C14.Vmu.St
+
+def init (c : Cfg) : St := C14.Vmu.St.init (vcfg c)
+
+/-- the memory side has taken requests from the port: `p` slots are free when the tick starts (never
+    more requests than the port holds; the harness reports the real number of free slots) -/
+def freeSlots (p : Nat) (s : St) : St := C14.Vmu.take s (s.out.length - (portCap - p))
+
+/-- the coalescer's transactions of this tick, one by one with their penalties -/
+def arrive (arr : List Nat) (s : St) : St := arr.foldl (fun s pen => C14.Vmu.issue s 1 pen) s
+
+def tick (c : Cfg) (s : St) (t : Tk) : St := arrive t.arr (C14.Vmu.cycle (vcfg c) (freeSlots t.p s))
+
+def run (c : Cfg) (ts : List Tk) : St := ts.foldl (tick c) (init c)
+
+/-- the departure order, as issue indices (`sent`: every transaction put on the port, in order) -/
+def departed (c : Cfg) (ts : List Tk) : List Nat := (run c ts).sent
 
 /-! ## case lines -/
 
@@ -169,22 +217,23 @@ def parseEv (s : String) : Option (List Tk) :=
     let t ← parseTok g
     pure (l ++ t)) (some [])
 
-/-- per tick: post-buffer fill / waiting transactions after the tick -/
+/-- per tick: post-buffer fill / waiting transactions / transactions set aside, after the tick -/
 def traceOf (c : Cfg) (ts : List Tk) : List String :=
   (ts.foldl (fun (acc : St × List String) t =>
     let s := tick c acc.1 t
-    (s, s!"{s.post.length}/{s.waiting.length}" :: acc.2)) (init c, [])).2.reverse
+    (s, s!"{s.post.length}/{s.waiting.length}/{s.aside.length}" :: acc.2)) (init c, [])).2.reverse
 
 def natsStr (l : List Nat) : String := joinWith "," (l.map toString)
 
-/-- `c02 txn w=<w> s=<s> b=<b> n=<transactions> ev=<tick tokens>` → `ord=<departure order> left=<k> tr=<post/waiting per tick>` -/
+/-- `c02 txn w=<w> s=<s> b=<b> n=<transactions> ev=<tick tokens>` →
+    `ord=<departure order> left=<k> tr=<post/waiting/aside per tick>` -/
 def handleTxn (t : List String) : String :=
   match kvNat? t "w", kvNat? t "s", kvNat? t "b", kvNat? t "n", (kv? t "ev").bind parseEv with
   | some w, some s, some b, some n, some ts =>
     let c := mkCfg w s b
     if s = 0 ∨ n ≠ (ts.map (·.arr.length)).sum then "bad" else
     let st := run c ts
-    s!"ord={natsStr (st.out.map (·.idx))} left={n - st.out.length} tr={joinWith "." (traceOf c ts)}"
+    s!"ord={natsStr st.sent} left={n - st.sent.length} tr={joinWith "." (traceOf c ts)}"
   | _, _, _, _, _ => "bad"
 
 end C02.Txn
